@@ -1,16 +1,49 @@
 import TxV.Model.Semaphore
 open TxV TxV.Proto TxV.Semaphore
 
-/-- protocol:  `cfg max=5` → `ok` ;  `cyc a=1 r=0 c=0` → `a=1 r=0 c=0 rdy=10 cnt=3`
-    (`rdy` = acquire_ready,release_ready and `cnt` = count, both sampled before the edge) -/
-def stepLine (s : State) (line : String) : State × String :=
+/-- protocol:  `cfg max=5 [ao=0 ro=0]` → `ok` ;  `cyc a=1 r=0 c=0` → `a=1 r=0 c=0 rdy=10 cnt=3`
+    (`rdy` = acquire_ready,release_ready and `cnt` = count, both sampled before the edge).
+    Two callers per method: `mcyc a=1/1 r=0/1 c=0` → `a=1/0 r=0/1 c=0 rdy=11 cnt=3`.  `acquire` and `release`
+    are exclusive methods: of the callers attempting, the one the real scheduler serves first (`ao`/`ro` of the
+    cfg line, probed on the real circuit) is granted when the method is ready; the component sees the union. -/
+structure DState where
+  s : State
+  ao : Nat := 0
+  ro : Nat := 0
+
+def pair (t : List String) (key : String) : Option (Bool × Bool) :=
+  match (kv? t key).map (·.splitOn "/") with
+  | some ["0", "0"] => some (false, false)
+  | some ["0", "1"] => some (false, true)
+  | some ["1", "0"] => some (true, false)
+  | some ["1", "1"] => some (true, true)
+  | _ => none
+
+/-- which caller is served: the first attempting one in the scheduler's order -/
+def winner (first : Nat) (x : Bool × Bool) : Option Nat :=
+  if first == 0 then (if x.1 then some 0 else if x.2 then some 1 else none)
+  else (if x.2 then some 1 else if x.1 then some 0 else none)
+
+def stepLine (d : DState) (line : String) : DState × String :=
   let t := tokens line
   match t.head? with
-  | some "cfg" => (init (natD t "max" 1), "ok")
+  | some "cfg" => ({ s := init (natD t "max" 1), ao := natD t "ao" 0, ro := natD t "ro" 0 }, "ok")
   | some "cyc" =>
     let i : In := { acq := flag t "a", rel := flag t "r", clr := flag t "c" }
-    let (s', o) := step s i
-    (s', s!"a={showBool o.acq} r={showBool o.rel} c={showBool o.clr} rdy={showBool (acquireReady s)}{showBool (releaseReady s)} cnt={s.count}")
-  | _ => (s, "bad-op")
+    let (s', o) := step d.s i
+    ({ d with s := s' }, s!"a={showBool o.acq} r={showBool o.rel} c={showBool o.clr} rdy={showBool (acquireReady d.s)}{showBool (releaseReady d.s)} cnt={d.s.count}")
+  | some "mcyc" =>
+    match pair t "a", pair t "r" with
+    | some a, some r =>
+      let i : In := { acq := a.1 || a.2, rel := r.1 || r.2, clr := flag t "c" }
+      let (s', o) := step d.s i
+      let aw := winner d.ao a
+      let rw := winner d.ro r
+      let g (w : Option Nat) (done : Bool) (k : Nat) : String := showBool (done && w == some k)
+      ({ d with s := s' },
+       s!"a={g aw o.acq 0}/{g aw o.acq 1} r={g rw o.rel 0}/{g rw o.rel 1} c={showBool o.clr} " ++
+       s!"rdy={showBool (acquireReady d.s)}{showBool (releaseReady d.s)} cnt={d.s.count}")
+    | _, _ => (d, "bad-op")
+  | _ => (d, "bad-op")
 
-def main : IO Unit := Proto.run (init 1) stepLine
+def main : IO Unit := Proto.run ({ s := init 1 } : DState) stepLine
